@@ -145,22 +145,38 @@ func remoteScenarios(c *Ctx) []remoteScenario {
 }
 
 func runRemote(c *Ctx, sh *shared, dir string) {
+	if os.Getenv("C05_SCEN") == "cancels" { // development aid
+		runCancels(c, sh, filepath.Join(dir, "cancels"))
+		return
+	}
 	scs := remoteScenarios(c)
 	var wg sync.WaitGroup
 	for i := range scs {
 		wg.Add(1)
 		go func(i int) {
 			defer wg.Done()
+			t0 := time.Now()
 			runRemoteScenario(c, sh, filepath.Join(dir, scs[i].Name), scs[i])
+			sh.mu.Lock()
+			sh.im.Extra["wall:"+scs[i].Name] = time.Since(t0).Round(100 * time.Millisecond).String()
+			sh.mu.Unlock()
 		}(i)
 	}
 	// the header line of a results stream against every chunking: a link that holds the remote
 	// node's bytes back and releases them in one piece, and a scripted remote that cuts header and
 	// output as it likes
+	timed := func(name string, f func()) {
+		defer wg.Done()
+		t0 := time.Now()
+		f()
+		sh.mu.Lock()
+		sh.im.Extra["wall:"+name] = time.Since(t0).Round(100 * time.Millisecond).String()
+		sh.mu.Unlock()
+	}
 	wg.Add(3)
-	go func() { defer wg.Done(); runCancels(c, sh, filepath.Join(dir, "cancels")) }()
-	go func() { defer wg.Done(); runStalls(c, sh, filepath.Join(dir, "stalls")) }()
-	go func() { defer wg.Done(); runStandin(c, sh, filepath.Join(dir, "standin")) }()
+	go timed("cancels", func() { runCancels(c, sh, filepath.Join(dir, "cancels")) })
+	go timed("stalls", func() { runStalls(c, sh, filepath.Join(dir, "stalls")) })
+	go timed("standin", func() { runStandin(c, sh, filepath.Join(dir, "standin")) })
 	wg.Wait()
 }
 
